@@ -14,7 +14,7 @@ use crate::engine::*;
 use crate::host::{announce_from, simple_announce};
 use crate::refcodec::*;
 use serde_json::{json, Value};
-use std::collections::VecDeque;
+use std::collections::{BTreeSet, VecDeque};
 use std::io::{BufRead, BufReader, Read};
 use std::os::unix::net::UnixStream;
 use std::path::PathBuf;
@@ -367,24 +367,34 @@ pub struct Variant {
     pub domain: u8,
     /// bit 2 of the worker index (decides `swap`, for C12 `p2p`)
     pub alt: bool,
+    /// both ports have an acceptable master list naming the parent, the other master and responder R1 only (C14, odd
+    /// workers)
+    pub aml: bool,
+    /// announce receipt timeout of 8 instead of 3 intervals (C14: a port that has left Faulty then stays Listening
+    /// for about a second)
+    pub long_timeout: bool,
+    /// the port that is not on the parent's segment announces once per second instead of eight times (C06, workers
+    /// 4..7): the BMCA must still run at the pace of the faster port
+    pub slow_other_port: bool,
 }
 
 impl Variant {
     pub fn from_index(first: u64, prop: &str) -> Variant {
         let alt = (first / 4) % 2 == 1;
         let other_domain = first % 3 == 1;
-        Variant { path_trace: first % 2 == 1, udp: (first / 2) % 2 == 1, swap: alt && prop != "C12", p2p: (alt && prop == "C12") || prop == "C14", sdo: if other_domain { 0x1a5 } else { 0 }, domain: if other_domain { 7 } else { 0 }, alt }
+        Variant { path_trace: first % 2 == 1, udp: (first / 2) % 2 == 1, swap: alt && prop != "C12" && prop != "C06", p2p: (alt && prop == "C12") || prop == "C14", sdo: if other_domain { 0x1a5 } else { 0 }, domain: if other_domain { 7 } else { 0 }, alt, aml: prop == "C14" && first % 2 == 1, long_timeout: prop == "C14", slow_other_port: prop == "C06" && alt }
     }
     pub fn index(&self) -> u64 {
         self.path_trace as u64 + 2 * self.udp as u64 + 4 * self.alt as u64
     }
     pub fn from_render(v: &Value, prop: &str) -> Variant {
         let alt = v["variant_alt"].as_bool().unwrap_or(false);
-        let mut var = Variant { path_trace: v["path_trace"].as_bool().unwrap_or(false), udp: v["transport"].as_str() == Some("udp-ipv4"), swap: alt && prop != "C12", p2p: (alt && prop == "C12") || prop == "C14", sdo: 0, domain: 0, alt };
+        let mut var = Variant { path_trace: v["path_trace"].as_bool().unwrap_or(false), udp: v["transport"].as_str() == Some("udp-ipv4"), swap: alt && prop != "C12" && prop != "C06", p2p: (alt && prop == "C12") || prop == "C14", sdo: 0, domain: 0, alt, aml: false, long_timeout: prop == "C14", slow_other_port: prop == "C06" && alt };
         // sdoId / domain are a function of the worker index
         let again = Variant::from_index(var.index(), prop);
         var.sdo = again.sdo;
         var.domain = again.domain;
+        var.aml = again.aml;
         var
     }
 }
@@ -463,6 +473,11 @@ pub struct World {
     /// when set: every frame the daemon sends on the master side, with the system time (ns) at which it was read
     pub keep_frames: bool,
     pub frames_b: Vec<(u128, RMsg)>,
+    /// clock identities seen as source of frames on the daemon's master-side segment other than the configured one
+    /// (nothing else sends there except the harness, whose own frames are not captured)
+    pub unexpected_sources: BTreeSet<[u8; 8]>,
+    /// grandmaster identities named by the Announces the daemon itself sent on the parent's segment (when, which)
+    pub a_announces: Vec<(Instant, [u8; 8])>,
 }
 
 impl World {
@@ -484,7 +499,7 @@ impl World {
         let dir = std::env::temp_dir().join(format!("vcheck-e2e-{}-{}", std::process::id(), GEN.fetch_add(1, std::sync::atomic::Ordering::Relaxed)));
         std::fs::create_dir_all(&dir).map_err(|e| e.to_string())?;
         let cfg = format!(
-            "loglevel = \"{ll}\"\nsdo-id = {sdo}\ndomain = {dom}\npriority1 = 128\nidentity = \"001b19aa00010000\"\nvirtual-system-clock = true\npath-trace = {}\n\n[[port]]\ninterface = \"a0\"\nnetwork-mode = \"{nm}\"\nhardware-clock = \"none\"\nannounce-interval = {l}\nsync-interval = {l}\ndelay-interval = -2\ndelay-mechanism = \"{dm}\"\n\n[[port]]\ninterface = \"b0\"\nnetwork-mode = \"{nm}\"\nhardware-clock = \"none\"\nannounce-interval = {l}\nsync-interval = {l}\ndelay-interval = -2\ndelay-mechanism = \"{dm}\"\n\n[observability]\nobservation-path = \"{}\"\n",
+            "loglevel = \"{ll}\"\nsdo-id = {sdo}\ndomain = {dom}\npriority1 = 128\nidentity = \"001b19aa0001beef\"\nvirtual-system-clock = true\npath-trace = {}\n\n[[port]]\ninterface = \"a0\"\nnetwork-mode = \"{nm}\"\nhardware-clock = \"none\"\nannounce-interval = {l}\nsync-interval = {l}\ndelay-interval = -2\ndelay-mechanism = \"{dm}\"\n{aml}\n[[port]]\ninterface = \"b0\"\nnetwork-mode = \"{nm}\"\nhardware-clock = \"none\"\nannounce-interval = {lb}\nsync-interval = {l}\ndelay-interval = -2\ndelay-mechanism = \"{dm}\"\n{aml}\n[observability]\nobservation-path = \"{}\"\n",
             path_trace,
             dir.join("obs.sock").display(),
             l = ANN_LOG,
@@ -492,7 +507,9 @@ impl World {
             nm = if udp { "ipv4" } else { "ethernet" },
             dm = if variant.p2p { "P2P" } else { "E2E" },
             sdo = variant.sdo,
-            dom = variant.domain
+            dom = variant.domain,
+            lb = if variant.slow_other_port { 0 } else { ANN_LOG },
+            aml = format!("{}{}", if variant.aml { "acceptable-master-list = [\"001b19cc00000002\", \"001b19cc00000007\", \"001b19cc00000021\"]\n" } else { "" }, if variant.long_timeout { "announce-receipt-timeout = 8\n" } else { "" })
         );
         std::fs::write(dir.join("statime.toml"), cfg).map_err(|e| e.to_string())?;
         let log = std::fs::File::create(dir.join("daemon.log")).map_err(|e| e.to_string())?;
@@ -545,7 +562,8 @@ impl World {
             sent: vec![],
             seen_b: vec![],
             seen_a_master_traffic: 0,
-            own_identity: [0x00, 0x1b, 0x19, 0xaa, 0x00, 0x01, 0x00, 0x00],
+            // deliberately not what the daemon would derive from the MAC address of its first interface
+            own_identity: [0x00, 0x1b, 0x19, 0xaa, 0x00, 0x01, 0xbe, 0xef],
             parent_ann: default_parent_ann(),
             parent_flags1: 0,
             parent_path: None,
@@ -557,6 +575,8 @@ impl World {
             log: vec![],
             keep_frames: false,
             frames_b: vec![],
+            unexpected_sources: BTreeSet::new(),
+            a_announces: vec![],
         };
         w.establish()?;
         Ok(w)
@@ -613,6 +633,9 @@ impl World {
                         self.seen_b_delay_resp.push(m.header.seq);
                     }
                 }
+                if m.header.source.clock != self.own_identity {
+                    self.unexpected_sources.insert(m.header.source.clock);
+                }
                 if m.header.msg_type == T_ANNOUNCE {
                     self.seen_b.push(SeenAnnounce { at: Instant::now(), msg: m });
                 }
@@ -622,6 +645,9 @@ impl World {
             if let Ok(m) = decode(&f) {
                 if m.header.source.clock == self.own_identity {
                     self.log.push(('a', m.header.msg_type, Instant::now()));
+                    if let Some(a) = m.announce() {
+                        self.a_announces.push((Instant::now(), a.gm_identity));
+                    }
                 }
                 if matches!(m.header.msg_type, T_ANNOUNCE | T_SYNC | T_FOLLOW_UP) && m.header.source.clock == self.own_identity {
                     self.seen_a_master_traffic += 1;
@@ -796,6 +822,20 @@ impl World {
             }
         }
         v
+    }
+
+    /// does the daemon's log contain `needle` after byte offset `mark`?
+    pub fn log_contains_since(&self, mark: u64, needle: &str) -> bool {
+        use std::io::{Seek, SeekFrom};
+        let Ok(mut f) = std::fs::File::open(self.dir.join("daemon.log")) else { return false };
+        if f.seek(SeekFrom::Start(mark)).is_err() {
+            return false;
+        }
+        let mut bytes = vec![];
+        if f.read_to_end(&mut bytes).is_err() {
+            return false;
+        }
+        String::from_utf8_lossy(&bytes).contains(needle)
     }
 
     /// peer-delay values (ns) of the measurements the daemon logged after byte offset `mark` of its log
@@ -1205,8 +1245,10 @@ pub fn case_c19(w: &mut World, exp: &RealExporter, t: &mut Tape) -> E2eOut {
     let resps0 = w.delay_resps_sent;
     w.obs_problems.clear();
     w.obs_misses = 0;
-    w.poll_obs_ms = Some(20);
-    if t.chance(1, 3) {
+    // a reader that polls all the time, or (every other case) one that comes back only after the change has settled
+    let polling = t.bool();
+    w.poll_obs_ms = if polling { Some(20) } else { None };
+    if polling && t.chance(2, 3) {
         // role changes under observation: the parent falls silent until the port has taken over, then returns;
         // every observation polled meanwhile must be of one instant (obs_invariants)
         let s0 = Instant::now();
@@ -1239,7 +1281,8 @@ pub fn case_c19(w: &mut World, exp: &RealExporter, t: &mut Tape) -> E2eOut {
         out.fail("daemon: observation socket does not deliver a parsable state", "");
         return E2eOut { out, inconclusive: None };
     };
-    let i = &st2.instance;
+    // a reader that was away while the change settled must get the current state with its first read
+    let i = if polling { &st2.instance } else { &st1.instance };
     let states = (format!("{:?}", i.port_ds.get(w.slave_idx).map(|p| p.port_state)), format!("{:?}", i.port_ds.get(1 - w.slave_idx).map(|p| p.port_state)));
     if !(states.0.contains("Slave") && states.1.contains("Master")) {
         return E2eOut { out, inconclusive: Some(format!("daemon not (Slave, Master): {:?}", states)) };
@@ -1764,6 +1807,9 @@ pub fn case_c10(w: &mut World, t: &mut Tape) -> E2eOut {
     if !w.steady() {
         return E2eOut { out, inconclusive: Some(format!("daemon left (Slave, Master): {:?}", w.port_states())) };
     }
+    if let Some(src) = w.unexpected_sources.iter().next() {
+        out.fail("daemon: frames on the master port's segment bear a clock identity other than the configured one", format!("{:02x?} (configured {:02x?}) ; {}", src, w.own_identity, rendered));
+    }
     let ms = |ns: i128| ns as f64 / 1e6;
     let mut last_seq: std::collections::HashMap<u8, u16> = Default::default();
     let mut syncs: Vec<(u16, u128, bool)> = vec![];
@@ -2032,6 +2078,9 @@ pub fn case_c11(w: &mut World, t: &mut Tape) -> E2eOut {
             break;
         }
     }
+    if let Some(src) = w.unexpected_sources.iter().next() {
+        out.fail("daemon: frames on the master port's segment bear a clock identity other than the configured one", format!("{:02x?} (configured {:02x?}) ; {}", src, w.own_identity, rendered));
+    }
     if checked == 0 && out.violation.is_none() {
         w.keep_frames = false;
         return E2eOut { out, inconclusive: Some("no Announce of the master port seen after the change".into()) };
@@ -2085,7 +2134,8 @@ pub fn case_c11(w: &mut World, t: &mut Tape) -> E2eOut {
 /// One case: while the parent (priority1 100) keeps announcing, a new master M with priority1 50 appears on the same
 /// segment and sends k Announces, one per interval, then falls silent. k = 1: M must never become the parent (one
 /// Announce does not qualify). k >= 6: M must be the parent within 4 intervals + 0.6 s of its second Announce, and
-/// must have been dropped (parent again the old one) within 6 intervals + 0.8 s of its last one. A master that
+/// must have been dropped (parent again the old one) within 6 intervals + one BMCA period + 0.1 s of its last one
+/// (the in-process bound; measured on the unchanged daemon: 0.42-0.48 s). A master that
 /// reports stepsRemoved >= 255 or carries the daemon's own clock identity never becomes parent, however long it
 /// announces. The observation socket is polled every 20 ms.
 pub fn case_c06(w: &mut World, t: &mut Tape, tag: u32) -> E2eOut {
@@ -2097,11 +2147,52 @@ pub fn case_c06(w: &mut World, t: &mut Tape, tag: u32) -> E2eOut {
             return E2eOut { out, inconclusive: Some(format!("daemon not in (Slave, Master) before the case: {:?}", w.port_states())) };
         }
     }
+    if t.chance(1, 3) {
+        // the only master falls silent: within six announce intervals and one BMCA period (+ 0.1 s) the daemon must have given it up
+        // (parentDS names the daemon itself again), whatever else is or is not going on
+        let rendered = json!({"sole_master_silent_ms": 2500});
+        out.render = rendered.clone();
+        let s0 = Instant::now();
+        w.next_parent = s0 + Duration::from_millis(2500);
+        w.a_announces.clear();
+        let mut gave_up = None;
+        while s0.elapsed() < Duration::from_millis(2490) {
+            let d = Instant::now() + Duration::from_millis(20);
+            w.run_until(d);
+            if gave_up.is_none() && w.observe().map(|o| o.instance.parent_ds.parent_port_identity.clock_identity.0 == w.own_identity).unwrap_or(false) {
+                gave_up = Some(s0.elapsed().as_millis() as u64);
+            }
+        }
+        // the last Announce left up to one interval before the silence began
+        match gave_up {
+            Some(ms) if ms <= 7 * ANN_MS + 100 => {}
+            other => out.fail("daemon: the only master fell silent and is still the parent after the bound", format!("parentDS named the daemon itself after {:?} ms (bound {} ms) ; {}", other, 7 * ANN_MS + 100, rendered)),
+        }
+        // a port that has taken over may still name the lost grandmaster until the next BMCA run (one interval), not for
+        // longer: at most two such Announces
+        let stale = w.a_announces.iter().filter(|(_, gm)| *gm == PARENT.clock).count();
+        out.render = json!({"sole_master_silent_ms": 2500, "parent_given_up_after_ms": gave_up, "announces_naming_the_lost_grandmaster": stale});
+        if stale > 2 && out.violation.is_none() {
+            out.fail("daemon: a port that took over keeps announcing the lost grandmaster", format!("{} Announces naming it after it fell silent ; {}", stale, rendered));
+        }
+        w.next_parent = Instant::now();
+        let r0 = Instant::now();
+        while r0.elapsed() < Duration::from_millis(2500) {
+            let d = Instant::now() + Duration::from_millis(100);
+            w.run_until(d);
+            if w.steady() {
+                break;
+            }
+        }
+        out.nontrivial = Some(hash_of(&tag));
+        out.label("daemon:sole-master-silent");
+        return E2eOut { out, inconclusive: None };
+    }
     let kind = t.weighted(&[6, 1, 1]); // 0 ordinary, 1 stepsRemoved >= 255, 2 own clock identity
     let k = match t.weighted(&[3, 1, 4]) {
         0 => 1usize,
         1 => 2,
-        _ => 6 + t.below(4) as usize,
+        _ => 6 + t.below(9) as usize,
     };
     let mut id = PortId { clock: [0x00, 0x1b, 0x19, 0xc6, (tag >> 8) as u8, tag as u8, 0, 1], port: 1 };
     if kind == 2 {
@@ -2123,6 +2214,7 @@ pub fn case_c06(w: &mut World, t: &mut Tape, tag: u32) -> E2eOut {
     let is_parent = |w: &World| w.observe().map(|o| o.instance.parent_ds.parent_port_identity.clock_identity.0 == id.clock && o.instance.parent_ds.parent_port_identity.port_number == id.port).unwrap_or(false);
     let mut sent_at: Vec<Instant> = vec![];
     let mut became_parent: Option<Instant> = None;
+    let mut dropped_at: Option<Instant> = None;
     for _ in 0..k {
         seq = seq.wrapping_add(1);
         let mut m = announce_from(id, seq, ann, 0, 0);
@@ -2133,15 +2225,18 @@ pub fn case_c06(w: &mut World, t: &mut Tape, tag: u32) -> E2eOut {
         while Instant::now() < until {
             let d = (Instant::now() + Duration::from_millis(20)).min(until);
             w.run_until(d);
-            if became_parent.is_none() && is_parent(w) {
+            let p = is_parent(w);
+            if became_parent.is_none() && p {
                 became_parent = Some(Instant::now());
+            }
+            if became_parent.is_some() && dropped_at.is_none() && !p {
+                dropped_at = Some(Instant::now());
             }
         }
     }
     let last = *sent_at.last().unwrap();
     // keep watching after the last Announce
-    let watch_ms = 6 * ANN_MS + 800 + 400;
-    let mut dropped_at: Option<Instant> = None;
+    let watch_ms = 7 * ANN_MS + 100 + 400;
     while last.elapsed() < Duration::from_millis(watch_ms) {
         let d = Instant::now() + Duration::from_millis(20);
         w.run_until(d);
@@ -2169,12 +2264,17 @@ pub fn case_c06(w: &mut World, t: &mut Tape, tag: u32) -> E2eOut {
                 if since_second > 4 * ANN_MS + 600 {
                     out.fail("daemon: a steadily announcing better master became the parent only after the bound", format!("{} ms after its second Announce (bound {} ms) ; {}", since_second, 4 * ANN_MS + 600, rendered));
                 }
+                if let Some(d) = dropped_at {
+                    if d + Duration::from_millis(ANN_MS) < last {
+                        out.fail("daemon: a master that keeps announcing every interval was dropped", format!("{} ms before its last Announce ; {}", last.saturating_duration_since(d).as_millis(), rendered));
+                    }
+                }
                 match dropped_at {
                     None => out.fail("daemon: a master that fell silent is still the parent after the bound", format!("{} ms after its last Announce ; {}", last.elapsed().as_millis(), rendered)),
                     Some(d) => {
                         let ms = d.saturating_duration_since(last).as_millis() as u64;
-                        if ms > 6 * ANN_MS + 800 {
-                            out.fail("daemon: a master that fell silent was dropped only after the bound", format!("{} ms after its last Announce (bound {} ms) ; {}", ms, 6 * ANN_MS + 800, rendered));
+                        if ms > 7 * ANN_MS + 100 {
+                            out.fail("daemon: a master that fell silent was dropped only after the bound", format!("{} ms after its last Announce (bound {} ms) ; {}", ms, 7 * ANN_MS + 100, rendered));
                         }
                     }
                 }
@@ -2408,11 +2508,15 @@ pub fn case_c14(w: &mut World, t: &mut Tape) -> E2eOut {
         return E2eOut { out, inconclusive: None };
     }
     out.label("daemon:two-responders");
-    // (C) recovery through clean exchanges
+    // (C) recovery through clean exchanges. The parent stays silent meanwhile, so that the port, once it has left
+    //     Faulty, stays Listening (it cannot become slave and hide a stale observation behind the next role change)
     w.pd_log.clear();
     w.pd_default = Some(PdAnswer::Clean { two_step: true, turnaround_ns: 1000 });
     let r0 = Instant::now();
+    w.next_parent = r0 + Duration::from_millis(4200);
     let mut recovered = false;
+    let rec_mark = std::fs::metadata(w.dir.join("daemon.log")).map(|m| m.len()).unwrap_or(0);
+    let mut log_says_left: Option<Instant> = None;
     while r0.elapsed() < Duration::from_millis(4000) {
         let d = Instant::now() + Duration::from_millis(50);
         w.run_until(d);
@@ -2420,13 +2524,27 @@ pub fn case_c14(w: &mut World, t: &mut Tape) -> E2eOut {
             recovered = true;
             break;
         }
+        // the daemon's own log is a second witness: once it says the port left Faulty, the observation socket has
+        // two BMCA periods (+ slack) to say so, too
+        if log_says_left.is_none() && w.log_contains_since(rec_mark, "Faulty -> ") {
+            log_says_left = Some(Instant::now());
+        }
+        if let Some(at) = log_says_left {
+            if at.elapsed() > Duration::from_millis(320) {
+                out.fail("daemon: the observation socket still shows the port faulty although it has left that state", format!("daemon log reported the transition more than 320 ms ago ; states {:?} ; {}", w.port_states(), rendered));
+                break;
+            }
+        }
         if w.pd_log.len() >= 5 {
             break;
         }
     }
     if !recovered && w.pd_log.len() >= 4 {
         out.fail("daemon: port still faulty after four exchanges answered by exactly one responder", format!("states {:?} ; {}", w.port_states(), rendered));
+    } else if !recovered && w.pd_log.len() < 2 {
+        out.fail("daemon: a faulty peer-to-peer port no longer sends Pdelay_Req (it can then never leave the faulty state)", format!("{} requests in {} ms (interval 250 ms) ; states {:?} ; {}", w.pd_log.len(), r0.elapsed().as_millis(), w.port_states(), rendered));
     }
+    w.next_parent = Instant::now();
     // leave the daemon as the next case expects it
     let d = Instant::now() + Duration::from_millis(1500);
     w.run_until(d);
@@ -2551,6 +2669,7 @@ pub fn worker_main(args: &[String]) -> i32 {
             o.insert("delay_mechanism".into(), json!(if variant.p2p { "P2P" } else { "E2E" }));
             o.insert("sdo_id".into(), json!(variant.sdo));
             o.insert("domain".into(), json!(variant.domain));
+            o.insert("acceptable_master_list".into(), json!(variant.aml));
         }
         let line = json!({
             "index": idx,
